@@ -37,8 +37,19 @@ class U:
         self.expr, self.dim, self.mag = expr, dim, mag
 
 
+NAMED_COLLISIONS = {}  # unit expression -> id of its group of indistinguishable named units
+
+
 def unit_pool(units, rnd, n):
     pool = [U("au::%s{}" % u.name, u.dim, u.mag) for u in units]
+    groups = {}
+    for u in units:
+        groups.setdefault((model.key(u.dim), model.key(u.mag), u.has_origin), []).append(u.name)
+    NAMED_COLLISIONS.clear()
+    for gi, names in enumerate(groups.values()):
+        if len(names) > 1 and not groups_have_origin(units, names):
+            for nm in names:
+                NAMED_COLLISIONS["au::%s{}" % nm] = gi
     by = {u.name: u for u in units}
     extra = []
     hz, s = by["Hertz"], by["Seconds"]
@@ -52,6 +63,11 @@ def unit_pool(units, rnd, n):
     extra.append(U("(au::Hertz{} * au::mag<7>() / au::mag<3>())", hz.dim, model.mul(hz.mag, model.mag_from_fraction(Fraction(7, 3)))))
     extra.append(U("au::UnitProductT<>{}", {}, {}))
     return pool, extra
+
+
+def groups_have_origin(units, names):
+    by = {u.name: u for u in units}
+    return any(by[n].has_origin for n in names)
 
 
 def is_unitless(dim, mag):
@@ -77,6 +93,8 @@ def type_items(pool, extra, rnd, thorough):
     for (ua, ub) in pairs:
         if (ua.expr, ub.expr) in seen_pairs:
             continue
+        if ua.expr != ub.expr and ua.expr in NAMED_COLLISIONS and NAMED_COLLISIONS[ua.expr] == NAMED_COLLISIONS.get(ub.expr):
+            continue  # two distinct named units of identical dimension, magnitude and origin in one product: documented limitation
         seen_pairs.add((ua.expr, ub.expr))
         rps = rep_pairs if thorough and n < 20 else rnd.sample(rep_pairs, 4)
         n += 1
@@ -177,6 +195,7 @@ def ir_pairs(pool, extra, rnd, thorough):
     allu = pool + extra
     k = 0
     sel = [(rnd.choice(allu), rnd.choice(allu)) for _ in range(40 if thorough else 10)]
+    sel = [(a, b) for (a, b) in sel if not (a.expr != b.expr and a.expr in NAMED_COLLISIONS and NAMED_COLLISIONS[a.expr] == NAMED_COLLISIONS.get(b.expr))]
     byexpr = {u.expr: u for u in allu}
     sel += [(byexpr["au::Hertz{}"], byexpr["au::Seconds{}"]), (byexpr["au::Percent{}"], byexpr["au::pow<-1>(au::Percent{})"])]
     rp = [("int32_t", "int32_t"), ("int8_t", "int8_t"), ("uint16_t", "int64_t"), ("double", "double"), ("float", "double"), ("int32_t", "double"),
